@@ -117,6 +117,18 @@ def real_read_cleanup(ritem, text):
     return seen[0]
 
 
+def stored_outside_py(o):
+    """Stored texts the composition theorem does not speak about (over-approximation of C14Compose.stored_outside):
+    a vCard with a PHOTO line (vobject never folds it), a white-space-only physical line (C14:fold-ws), quoted-printable."""
+    if "quoted-printable" in o.lower():
+        return True
+    for p in o.split("\n"):
+        p = p.rstrip("\r\n")
+        if p and p.isspace():
+            return True
+    return "BEGIN:VCARD" in o.upper() and re.search(r"(?im)^(?:[^:;\r\n]*\.)?PHOTO[;:]", o) is not None
+
+
 def real_put_pipeline(ritem, text, tag):
     """read_components -> check_and_sanitize_items -> Item.serialize, as do_PUT/prepare do for one object."""
     try:
@@ -391,6 +403,48 @@ def run(ctx):
     # a cache miss recomputes the text from the stored file: must be the stored text (model: reload_model)
     corr(ctx, "reload_model", "reload_model", [(o, real_put_pipeline(ritem, o, "VADDRESSBOOK" if "BEGIN:VCARD" in o else "VCALENDAR"))
                                                for _, o in accepted[:ctx.n(70, 800)]], enc_str, enc_opt(enc_str), "eq_os")
+    # the premise of the composition theorems, observed: every stored text of the stream, evaluated inside Coq, meets
+    # C14Compose.put_side_ok (values in codec form, no clean-up applicable, vobject's order, well-formed lines with sorted
+    # parameters, nothing for the text clean-ups) AND is a fixed point of put_model -- outside the three documented classes
+    # (vCard PHOTO lines are never folded; C14:fold-ws; quoted-printable), which the model must classify as such itself
+    stored = []
+    seen_stored = set()
+    for _, o in accepted:
+        if o not in seen_stored:
+            seen_stored.add(o)
+            stored.append((o, 3 if stored_outside_py(o) else 0))
+    ctx.count("stored_normal:premise-observed", sum(1 for _, e in stored if e == 0))
+    ctx.count("stored_normal:outside-documented", sum(1 for _, e in stored if e == 3))
+    hdr = HEADER + "Require Import RV.Proofs.C14Compose.\n"
+    for o, e in stored:
+        ctx.case(("stored_normal", o), nontrivial=(e == 0))
+    ctx.count("cases:stored_normal", len(stored))
+    ctx.log("correspondence", "stored_normal", len(stored), "cases")
+    bad = ctx.diff_cases("c14_stored_normal", hdr, "stored_check", stored, enc_str, enc_N, "stored_check_ok",
+                         shard=max(1, min(25, -(-len(stored) // 16))))
+    if bad is not None:
+        detail = ""
+        if bad:
+            try:
+                cls = ctx.coq_show(hdr, "stored_check %s" % enc_str(stored[bad[0]][0]))[-80:]
+            except Exception as e:      # the classification is only for the message
+                cls = "not evaluated (%s)" % e
+            detail = ("%d of %d stored texts are not in the normal form the composition theorem needs (C14Compose.stored_check: 1 = premises "
+                      "hold but put_model changes the text, 2 = a premise of put_side_ok fails, 3 = outside class the harness does not "
+                      "recognise); first: class %s, harness expected %d, text %r" % (len(bad), len(stored), cls, stored[bad[0]][1], stored[bad[0]][0]))
+            ctx.extra.setdefault("disagreements", {})["stored_normal"] = [repr(stored[b])[:600] for b in bad[:3]]
+        ctx.obligation("correspondence:stored_normal", not bad, detail)
+    # the witnesses of Proofs/C14Compose.v (non-vacuity; the two counterexamples to the unconditional statement), stored three
+    # times by the real pipeline, byte-exact against the model at each step -- the Examples are about real behaviour
+    wit = []
+    for t in COMPOSE_WITNESSES:
+        for _ in range(3):
+            o = real_put_pipeline(ritem, t, "VCALENDAR")
+            wit.append((t, o))
+            if o is None:
+                break
+            t = o
+    corr(ctx, "compose_witnesses", "put_model", wit, enc_str, enc_opt(enc_str), "eq_os")
     ctx.samples += [dict(upload=t[:400], stored=(o or "")[:400]) for t, o in put_cases[:2]]
     for k, v in list(g.features.items()) + list(gc.features.items()):
         ctx.count("grammar:" + k, v)
@@ -398,6 +452,23 @@ def run(ctx):
     # ------------------------------------------------------------ server-level monitors + export / split correspondence
     from checks import C14_server
     C14_server.run_server_part(ctx, HEADER, corr)
+
+
+def _mk(*ls):
+    return "".join(l + "\r\n" for l in ls)
+
+
+# ComposeExamples.busy / trailing / empty_param of coq/Proofs/C14Compose.v
+COMPOSE_WITNESSES = [
+    _mk("BEGIN:VCALENDAR", "PRODID:-//x//EN", "VERSION:2.0", "BEGIN:VEVENT", "SUMMARY:a,b;c", "DTSTART;VALUE=DATE:20200102", "UID:u1",
+        "DTSTAMP:20200101T000000Z", "EXDATE;X-A=1:20200103T100000Z", "DTEND;VALUE=DATE:20200103", "DURATION:PT0S", "CATEGORIES:a,b",
+        'ATTENDEE;ROLE=CHAIR;CN="Doe, J":mailto:x@y', "BEGIN:VALARM", "TRIGGER:-PT5M", "ACTION:DISPLAY", "END:VALARM", "END:VEVENT",
+        "END:VCALENDAR"),
+    _mk("BEGIN:VCALENDAR", "VERSION:2.0", "PRODID:-//x//EN", "BEGIN:VEVENT", "UID:u1", "DTSTAMP:20200101T000000Z",
+        "DTSTART:20200102T100000Z", "SUMMARY:s", "CATEGORIES:a,,", "END:VEVENT", "END:VCALENDAR"),
+    _mk("BEGIN:VCALENDAR", "VERSION:2.0", "PRODID:-//x//EN", "BEGIN:VEVENT", "UID:u1", "DTSTAMP:20200101T000000Z",
+        "DTSTART:20200102T100000Z", 'ATTENDEE;CN="":mailto:x@y', "END:VEVENT", "END:VCALENDAR"),
+]
 
 
 CLEANUP_CORPUS = [
